@@ -333,6 +333,22 @@ fn progress_bar(counts: &StateCounts, bar_size: usize) -> String {
     bar
 }
 
+/// Verification facade: the private render helpers of this module, unchanged.
+#[cfg(n2_verif)]
+pub fn verif_task_message(message: &str, seconds: usize, max_cols: usize) -> String {
+    task_message(message, seconds, max_cols)
+}
+
+#[cfg(n2_verif)]
+pub fn verif_truncate(s: &str, max: usize) -> &str {
+    truncate(s, max)
+}
+
+#[cfg(n2_verif)]
+pub fn verif_progress_bar(counts: &StateCounts, bar_size: usize) -> String {
+    progress_bar(counts, bar_size)
+}
+
 #[cfg(test)]
 mod tests {
     use super::*;
